@@ -11,17 +11,17 @@ PY = os.environ.get("PYVC_REPLAY_PYTHON", "/venv/bin/python")
 
 # property -> list of driver invocations tried in order when an obligation of that property fails
 DRIVERS: dict[str, list[list[str]]] = {
-    "C01": [["drivers/streams.py", "--mode", "roundtrip", "--max-len", "5"], ["drivers/streams.py", "--mode", "directed"], ["drivers/streams.py", "--max-len", "5"]],
-    "C02": [["drivers/streams.py", "--mode", "directed"], ["drivers/streams.py", "--max-len", "5"]],
+    "C01": [["drivers/framings.py"], ["drivers/streams.py", "--mode", "roundtrip", "--max-len", "5"], ["drivers/streams.py", "--mode", "directed"], ["drivers/streams.py", "--max-len", "5"]],
+    "C02": [["drivers/framings.py"], ["drivers/streams.py", "--mode", "directed"], ["drivers/streams.py", "--max-len", "5"]],
     "C03": [["drivers/endpoints.py", "--max-len", "5", "--faults"], ["drivers/endpoints.py", "--max-len", "4", "--asynchronous"]],
     "C10": [["drivers/endpoints.py", "--max-len", "4", "--asynchronous"], ["drivers/endpoints.py", "--max-len", "5", "--faults"]],
     "C04": [["drivers/sendpaths.py"]],
     "C11": [["drivers/budget.py"]],
-    "C06": [["drivers/streams.py", "--max-len", "5"], ["drivers/streams.py", "--mode", "directed"]],
+    "C06": [["drivers/framings.py"], ["drivers/streams.py", "--max-len", "5"], ["drivers/streams.py", "--mode", "directed"]],
     "C20": [["drivers/flow_control.py"]],
     "C19": [["drivers/connect_race.py"]],
     "C15": [["drivers/stream_server.py", "--max-frames", "2"]],
-    "C07": [["drivers/streams.py", "--mode", "bound"], ["drivers/streams.py", "--mode", "directed"], ["drivers/streams.py", "--max-len", "5"]],
+    "C07": [["drivers/framings.py"], ["drivers/streams.py", "--mode", "bound"], ["drivers/streams.py", "--mode", "directed"], ["drivers/streams.py", "--max-len", "5"]],
 }
 
 
